@@ -5,6 +5,7 @@ import RubyTi.Model.Config
 import RubyTi.Model.Args
 import RubyTi.Model.Sig
 import RubyTi.Model.Rbs
+import RubyTi.Model.C2json
 
 /-! Line-protocol driver over the executable model definitions (core-only, built as `lean_exe`).
 One op per input line, one answer line per op; the answer format is the one
@@ -180,6 +181,25 @@ def opRbsArgs (args : String) : String :=
   " ; ".intercalate ((Rbs.convertArguments f).map fun a =>
     ",".intercalate (a.type.map String.ofList) ++ "~" ++ String.ofList a.key ++ "~" ++ (if a.isAsterisk then "1" else "0") ++ "~" ++ (if a.isDefault then "1" else "0"))
 
+/-- c2jargs <req> <opt> <rest01> <post> <block01> <none01> <any01> | <format or -> -/
+def opC2j (args : String) : String :=
+  match args.splitOn " | " with
+  | [specS, fmtS] =>
+    match (specS.splitOn " ").filterMap String.toNat? with
+    | [r, o, rs, p, b, n, a] =>
+      let fmt : Option (List C2json.Fmt) :=
+        if fmtS == "-" then none else some (fmtS.toList.map fun c =>
+          if "ifszSAaHbnCo".toList.contains c then C2json.Fmt.val
+          else if c == '|' then .bar else if c == '*' then .star else if c == '&' then .amp else .mod)
+      let d : C2json.CDef := { spec := { req := r, opt := o, rest := rs == 1, post := p, block := b == 1, none := n == 1, any := a == 1 }, format := fmt }
+      let inf := C2json.infer d
+      let letters := String.ofList (inf.map fun t => match t with | .required => 'R' | .optional => 'O' | .rest => 'S' | .block => 'B')
+      let acc := String.ofList ((List.range 7).map fun k => if C2json.tiAccepts inf k then '1' else '0')
+      let cacc := String.ofList ((List.range 7).map fun k => if C2json.cAccepts d k then '1' else '0')
+      letters ++ " " ++ acc ++ " " ++ cacc
+    | _ => "BAD-ARGS"
+  | _ => "BAD-ARGS"
+
 def dispatch (line : String) : String :=
   if line.isEmpty then "" else
   let name := (line.splitOn " ").headD ""
@@ -194,6 +214,7 @@ def dispatch (line : String) : String :=
   else if name == "prio" then opPrio args
   else if name == "sortsig" then opSortSig args
   else if name == "rbsargs" then opRbsArgs args
+  else if name == "c2jargs" then opC2j args
   else if name == "pdef" then opPDef args
   else "BAD-OP " ++ name
 
